@@ -23,7 +23,7 @@ static void run(Ctx& c) {
     FSpec frel = mkSpec(true, range_type::BOOLEAN, edge_labeling::MULTI_TERMINAL, reduction_rule::IDENTITY_REDUCED);
     randomPolicy(r, frel);
     forest* FS = makeForest(w.dom, fset); forest* FR = makeForest(w.dom, frel);
-    int reps = r.range(1, 3);
+    int reps = r.range(1, 3); if (getenv("C20_ONE")) reps = 1;
     uint64_t sig = 0; bool nontriv = false; std::string sample;
     for (int rep = 0; rep < reps; rep++) {
         int ne = r.range(1, 6);
@@ -55,6 +55,7 @@ static void run(Ctx& c) {
         std::vector<int> modes = {0, 1, 2, 3, 4, 5};
         r.shuffle(modes);
         int nm = c.thorough ? 6 : r.range(2, 6);
+        if (getenv("C20_MODE")) { modes.assign(1, atoi(getenv("C20_MODE"))); nm = 1; }
         for (int mi = 0; mi < nm; mi++) {
             int mode = modes[size_t(mi)];
             std::string kb = std::string("C20:SATURATION_FORWARD:") + splitName(mode) + ":" + shortNameOf(fset.rr);
